@@ -114,6 +114,55 @@ def instances(tier, rng):
                             r["sopt"] = dict(sopt)
                         r["grp"] = g
                         insts.append(r)
+                    if cls in ("kMinPathErrorCycles", "kLeastAbsErrorsCycles"):
+                        # the trusted edges chosen by a percentile of the weights (a subset of the default choice): same answer
+                        for pct in (50, 100):
+                            r = C.base(u, cls, var.get("mode", "edge"))
+                            r.update({k: v for k, v in var.items() if k != "mode"})
+                            r["wt"] = "int"
+                            r["k"] = max(1, len(u["proutes"]))
+                            r["opt"] = {f: True for f in flags}
+                            r["trustpct"] = pct
+                            r["grp"] = g
+                            insts.append(r)
+    # the error models on weights that are NOT a flow, with one positive element scaled to 0 (= ignored): whether the optimum
+    # uses that element or avoids it, the safety machinery must not have an opinion about it
+    import fitcommon as F
+    for u0 in C.spread(cycs, 6 if quick else 60) + mcyc[:2 if quick else 8]:
+        for u in (F.perturb(u0, rng, nmax=2), F.wild(u0, rng, values=(0, 1, 3, 10))):
+            pos = [list(e) for e, w in zip(u["edges"], u["ew"]) if w > 0]
+            if not pos:
+                continue
+            for cls in ("kMinPathErrorCycles", "kLeastAbsErrorsCycles"):
+                g += 1
+                e = rng.choice(pos)
+                flags = flags_of(cls)
+                for vec in vectors(flags, rng, 2 if quick else 4):
+                    r = C.base(u, cls)
+                    r["wt"] = "int"
+                    r["k"] = max(1, len(u0["proutes"]))
+                    r["escale"] = [[e, 0, 1]]
+                    r["opt"] = dict(vec)
+                    r["grp"] = g
+                    insts.append(r)
+    # ... and deliberately: a positive, zero-scaled element in a part of the graph that carries no weight otherwise (the optimum
+    # leaves it alone; an element that is ignored must not be trusted by the safety machinery either)
+    for u0 in C.spread(vlib.universe("cyc", 4, maxe=6, k=2, w=2, l=1, cap=4), 40 if quick else 400) + C.motifs()[1]:
+        lo = C.lonely(u0, rng)
+        if not lo:
+            continue
+        u, e = lo
+        for cls in ("kMinPathErrorCycles", "kLeastAbsErrorsCycles"):
+            g += 1
+            flags = flags_of(cls)
+            for vec in vectors(flags, rng, 1 if quick else 3):
+                r = C.base(u, cls)
+                r["wt"] = "int"
+                r["k"] = max(1, len(u["proutes"]))
+                r["escale"] = [[e, 0, 1]]
+                r["opt"] = dict(vec)
+                r["grp"] = g
+                insts.append(r)
     # DAG motifs, a constraint crossing the planted routes whose FIRST edge alone carries the requested length fraction:
     # baseline against the two coherent "everything on" vectors (safety lists as subpath constraints, constraints as safe
     # sequences, ...): a relaxed constraint must not be extended into a mandatory one
